@@ -12,7 +12,8 @@ OBLIGATIONS = ["maxsum_factor_marginal_partial", "maxsum_select_value_partial", 
                "maxsum_leaf_message_partial", "approx_match_stability0", "suppression_exact_repeat_ok",
                "amaxsum_leafs_silent", "amaxsum_tree_exact_refuted", "maxsum_tree_exact_default_stability_refuted",
                "isolated_variable_initial_value_refuted",
-               "maxsum_graph_ok", "maxsum_algo_ok", "maxsum_refines_rounds"]
+               "maxsum_graph_ok", "maxsum_algo_ok", "maxsum_refines_rounds", "maxsum_suppression_lifted",
+               "maxsum_tree_messages", "maxsum_tree_select", "maxsum_tree_exact"]
 N_QUICK, N_THOROUGH = 250, 3000
 PARALLEL = 8
 SHARD = 20
@@ -31,20 +32,25 @@ MODELLED = ("factor_costs_for_var, costs_for_factor, select_value, apply_damping
             "in the model and compares every message table (exact rationals), every value selection with its cost, "
             "every on_new_cycle call, the final cycle counters and the in-flight messages.")
 META = dict(
-    level_text=("Partial proof (Coq). Proved for all inputs and sizes about the model of maxsum.py/amaxsum.py: the "
-                "factor-to-variable table is entry-wise the exact optimum over all assignments of the factor's other "
-                "variables of factor cost + received costs (min and max); select_value returns a domain value with "
-                "optimal belief; the variable-to-factor message is own cost + the other factors' tables up to one "
-                "constant (a leaf sends exactly its own costs); with stability 0 approx_match is pointwise equality, "
-                "so the SAME_COUNT cut-off only withholds exact repeats; for every schedule A-Max-Sum with "
-                "start_messages=leafs never sends anything when no variable has exactly one factor and there is no "
-                "unary factor. Refuted with machine-checked witnesses on the code as it is (known findings): "
+    level_text=("Synchronous Max-Sum: full proof (Coq), for all well-formed DCOPs, sizes, arities, min and max, any "
+                "start_messages and EVERY schedule of the asynchronous network: on a factor graph that is a forest of "
+                "height <= H with a unique optimum, stability 0 and damping 0, once every computation that has a "
+                "neighbour has completed more than H cycles the selected assignment is that optimum "
+                "(maxsum_tree_exact). Chain of theorems: the instance meets the contract of the C08 mixin model "
+                "(maxsum_graph_ok, maxsum_algo_ok); every run refines a functional lock-step system "
+                "(maxsum_refines_rounds, from C08's sync_round_inputs); the SAME_COUNT cut-off never changes what a "
+                "receiver holds (maxsum_suppression_lifted); the message on an edge is the exact min/max-marginal of "
+                "the subtree behind it up to a constant (maxsum_tree_messages); value selection is the optimum "
+                "(maxsum_tree_select). A-Max-Sum: partial - the local lemmas (factor marginal, select_value, "
+                "variable message, exact-repeat suppression) and, for every schedule, the start_messages=leafs "
+                "silence theorem. Refuted with machine-checked witnesses on the code as it is (known findings): "
                 "A-Max-Sum with the default start_messages deadlocks on a 3-variable chain; synchronous Max-Sum with "
                 "the default stability 0.1 freezes a changing message on a 4-variable chain; an isolated variable "
-                "keeps its initial value. NOT proved: the tree induction giving global exactness (messages = exact "
-                "subtree marginals, hence the selected assignment is the unique optimum); that part rests on the "
-                "correspondence run, which replays every schedule in the model (all message tables and selections "
-                "compared exactly) and checks the brute-force optimum on every complete run of a forest instance."),
+                "keeps its initial value. The correspondence run replays every schedule in the model (all message "
+                "tables and selections compared exactly), checks the brute-force optimum on every complete run of a "
+                "forest instance and - independently evaluating the hypotheses of maxsum_tree_exact on the real run, "
+                "also on cut runs - as soon as every computation exceeds the forest height; it also checks that the "
+                "theorem's forest predicate agrees with the harness's union-find/BFS forest height on every graph."),
     level_note=("Trusted: Coq kernel/vm_compute, M_MaxSum.v + M_SyncMixin.v + Net.v as a rendering of the Python "
                 "code, the thread-free netdriver. Costs are exact dyadic rationals in generated cases (integer "
                 "tables, power-of-two domain sizes); float rounding is outside the model. Message tables are "
@@ -131,6 +137,32 @@ def _is_forest(nv, facs):
     return True
 
 
+def _forest_height(c):
+    """-1 if the factor graph has a cycle; otherwise the largest number of edges on a path that starts at a
+    variable (0 when there is no constraint): independent of the model's unrolling (plain BFS on the tree)"""
+    nv = len(c["vars"])
+    scopes = [f["scope"] for f in c["facs"]]
+    if not _is_forest(nv, scopes):
+        return -1
+    adj = {("v", i): [] for i in range(nv)}
+    for k, sc in enumerate(scopes):
+        adj[("c", k)] = [("v", v) for v in sc]
+        for v in sc:
+            adj[("v", v)].append(("c", k))
+    best = 0
+    for i in range(nv):
+        dist = {("v", i): 0}
+        todo = [("v", i)]
+        while todo:
+            n = todo.pop()
+            for m in adj[n]:
+                if m not in dist:
+                    dist[m] = dist[n] + 1
+                    todo.append(m)
+        best = max(best, max(dist.values()))
+    return best
+
+
 def _brute(c):
     """all optimal assignments (list of tuples of domain indices) and the optimal cost"""
     doms = [v["dom"] for v in c["vars"]]
@@ -200,6 +232,12 @@ def gen(rng, n, tier):
                  seed=rng.randrange(10**9), steps=None if rng.random() < 0.7 else rng.randint(3, 60))
         forest = _is_forest(nv, [f["scope"] for f in fs])
         c["forest"] = forest
+        if damp != "0" and c["steps"] is None:
+            # damping 0.5 halves the weight of the past every cycle: after ~40 cycles at one node the tables are
+            # no longer exact in binary64 and the exact-rational model cannot follow (seen once in 3000 cases: a
+            # schedule that let one component run 140 cycles).  Model validation only anyway: bound the run
+            # (derived from the case seed so that the random stream of the generator is unchanged).
+            c["steps"] = 5 + c["seed"] % 66
         if forest:
             # the property needs a unique optimum: perturb a table until it is
             for _ in range(30):
@@ -391,11 +429,32 @@ def applicable(c, o):
     return bool(c["forest"] and c["damp"] == "0" and o.get("complete"))
 
 
+def exact_by_theorem(c, o):
+    """hypotheses of the Coq theorem maxsum_tree_exact, evaluated independently on the real run (also on runs
+    that were cut): synchronous maxsum, forest of height H, stability 0, damping 0, no constraint-less variable
+    with an initial value, every computation started and every computation that has a neighbour has completed
+    more than H cycles"""
+    if c["algo"] != "maxsum" or not c["forest"] or c["stab"] != "0" or c["damp"] != "0":
+        return False
+    h = _forest_height(c)
+    if h < 0:
+        return False
+    used = {v for f in c["facs"] for v in f["scope"]}
+    if any(i not in used and v["init"] is not None for i, v in enumerate(c["vars"])):
+        return False
+    nn = len(c["vars"]) + len(c["facs"])
+    if len(o.get("started", [])) != nn:
+        return False
+    lonely = {cname(k) for k, f in enumerate(c["facs"]) if not f["scope"]} | \
+             {vname(i) for i in range(len(c["vars"])) if i not in used}
+    return all(k >= h + 1 for n, k in o["cycles"] if n not in lonely)
+
+
 def oracle(c, o):
     for e in o["log"]:
         if e[0] == "raise":
             return "handler raised %s at %s: %s" % (e[2], e[1], e[3])
-    if not applicable(c, o):
+    if not (applicable(c, o) or exact_by_theorem(c, o)):
         return None
     arg, best = _brute(c)
     if len(arg) != 1:
@@ -482,8 +541,8 @@ def coq_case(c, o):
     final = q.lst([q.pair(q.z(node_id(n)), q.z(k)) for n, k in o["cycles"]])
     infl = q.lst(["(%s, %s, %s)" % (q.z(node_id(s)), q.z(node_id(d)), q.z(l)) for s, d, l in o["inflight"]])
     nodes = q.zlist([node_id(n) for n in names])
-    return "mkCase %s %s %s %s %s %s %s %s %s %s %s %s" % (q.b(sync), _par(c), vars_, facs, sched, cycles, selev, sends,
-                                                          sels, final, infl, nodes)
+    return "mkCase %s %s %s %s %s %s %s %s %s %s %s %s %s" % (q.b(sync), _par(c), vars_, facs, sched, cycles, selev, sends,
+                                                             sels, final, infl, nodes, q.z(_forest_height(c)))
 
 
 def nontrivial(c, o):
@@ -504,7 +563,11 @@ def histogram(cases, obs):
         inc("start_" + c["start"])
         inc("nvars_%d" % len(c["vars"]))
         if "sched" in o:
-            inc("oracle_applicable" if applicable(c, o) else "model_validation_only")
+            inc("oracle_applicable" if (applicable(c, o) or exact_by_theorem(c, o)) else "model_validation_only")
+            if exact_by_theorem(c, o):
+                inc("theorem_hypotheses_met")
+                if not o.get("complete"):
+                    inc("theorem_hypotheses_met_on_cut_run")
             inc("actions", len(o["sched"]))
             inc("messages", sum(len(v) for v in o["sends"].values()))
             inc("selections", sum(len(v) for v in o["sels"].values()))
